@@ -283,7 +283,7 @@ pub fn run(tier: Tier) -> i32 {
     for (mode, stave, depth, first_fee, prefix) in plans {
         {
             let sys = WordProduct { cfg: val::cfg(&CfgKey { mode: Some(mode), ..Default::default() }), alphabet: alphabet(stave, tier), first_fee, prefix: prefix.clone() };
-            let cap = if tier.is_thorough() { 700_000 } else { 400_000 };
+            let cap = if tier.is_thorough() { 300_000 } else { 400_000 };
             let xr = xs::bfs(&sys, depth, cap, false);
             states += xr.states;
             transitions += xr.transitions;
